@@ -215,7 +215,16 @@ def grouped_write_case(draw):
     cuts = sorted(draw(st.lists(st.integers(0, len(stmts)), min_size=n_sinks - 1, max_size=n_sinks - 1)))
     bounds = [0, *cuts, len(stmts)]
     sinks = [stmts[a:b] for a, b in zip(bounds, bounds[1:])]
-    return {"kind": "grouped_write", "integration": integration, "logical": logical, "arity": arity, "sinks": sinks,
+    # the flow: inferred from the logical type, or an explicit flow object handed over in the options (with or without
+    # the logical type passed to its constructor)
+    fname = "GraphsFrameFlow" if triples else "DatasetsFrameFlow"
+    flow = draw(st.sampled_from([None, None, fname, fname + ":lt"]))
+    if flow == fname and not sinks[0]:
+        flow = None  # the stream class is guessed from the first container and the logical type: an empty one with an
+        #              unspecified logical type is (legitimately) taken for quads and refused with a GRAPHS flow
+    if flow == fname:
+        logical = 0  # left unspecified in the options: the flow object alone decides
+    return {"kind": "grouped_write", "integration": integration, "logical": logical, "arity": arity, "sinks": sinks, "flow": flow,
             # frame_size is irrelevant for grouped flows (a frame per graph / dataset) - so it must stay irrelevant
             "preset": draw(gen.preset_for(stmts)), "frame_size": draw(st.sampled_from([1, 2, 5, 250])), "delimited": True,
             "phys": "TRIPLES" if triples else "QUADS",
@@ -241,7 +250,7 @@ def body_grouped_write(case, acc):
     nonempty = [s for s in case["sinks"] if s]
     if acc is not None:
         shared = len(nonempty) >= 3
-        acc.case(case, shared, ["integration_" + integ, "logical_%d" % case["logical"],
+        acc.case(case, shared, ["integration_" + integ, "logical_%d" % case["logical"], "flow_" + str(case.get("flow")),
                                 "sinks_%d" % len(case["sinks"])] + (["has_empty_sink"] if len(nonempty) < len(case["sinks"]) else []))
     if not data:
         if nonempty:
